@@ -42,7 +42,8 @@ impl RetryStrategy for Doubling {
     }
 
     fn after_failed_connect(&mut self) -> Duration {
-        let ret = self.current;
+        // the cap also applies to the first delay (a minimum configured above the maximum)
+        let ret = std::cmp::min(self.current, self.max);
         // saturating: with a cap near Duration::MAX ("never") doubling would overflow
         self.current = std::cmp::min(self.current.saturating_mul(2), self.max);
         ret
